@@ -97,6 +97,9 @@ CHECKS = {
         "groups": [
             {"pkg": "Havoc/pkg/profile/yaotl/json", "entries": ["H_c17_json_scan"], "shards": 4, "flags": ["-init", "Havoc/pkg/profile/yaotl"]},
             {"pkg": "Havoc/pkg/profile/yaotl/hclsyntax", "entries": ["H_c17_strlit_any"], "shards": 5},
+            {"pkg": "Havoc/pkg/profile/yaotl/hclsyntax", "entries": ["H_c17_lex"], "shards": 12, "flags": ["-init", "Havoc/pkg/profile/yaotl"]},
+            {"pkg": "Havoc/pkg/profile/yaotl/hclsyntax", "entries": ["H_c17_mutate"], "shards": 8, "shards_thorough": 24, "flags": ["-tags", "nohint", "-init", "Havoc/pkg/profile/yaotl,golang.org/x/text/unicode/norm,github.com/zclconf/go-cty/...,math/big,github.com/agext/levenshtein"]},
+            {"pkg": "Havoc/pkg/profile/yaotl/hclsyntax", "entries": ["H_c17_parse"], "shards": 16, "flags": ["-init", "Havoc/pkg/profile/yaotl,golang.org/x/text/unicode/norm,github.com/zclconf/go-cty/...,math/big,github.com/agext/levenshtein"]},
         ],
         "bounds": "JSON scanner: every byte string of length 0..3; string-literal sub-lexer (scanStringLit, quoted and unquoted): every byte string of length 0..4; grapheme segmentation by contract.",
         "outside": "the native-syntax lexer scan_tokens.go (5k lines of generated tables) and the parsers above it, templates, traversals, JSON parser above the scanner, evaluation of error-free inputs: not encodable within reach (DESIGN.md C17)",
@@ -105,6 +108,7 @@ CHECKS = {
     "C14": {
         "groups": [
             {"pkg": "Havoc/pkg/profile/yaotl/hclsyntax", "entries": ["H_c14_strlit"], "shards": 3},
+            {"pkg": "Havoc/pkg/profile/yaotl/hclsyntax", "entries": ["H_c14_profile_string"], "shards": 4, "flags": ["-init", "Havoc/pkg/profile/yaotl,golang.org/x/text/unicode/norm,github.com/zclconf/go-cty/...,math/big,github.com/agext/levenshtein"]},
         ],
         "bounds": "string literal spelling kernel: values of 0..2 arbitrary bytes, each written raw (ASCII, where legal), as \\n \\r \\t \\\" \\\\, or as \\xHH in upper or lower case, through scanStringLit + ParseStringLiteralToken.",
         "outside": "everything decoded through gohcl/cty/reflection: schema, required/unknown attributes, heredocs, numbers as strings, block labels, repeated blocks (DESIGN.md C14)",
